@@ -25,6 +25,12 @@ ATTRS = [
     ("#[eq(key = $KNE)] #[ord(key = $KEQ)]", "key", False),     # eq is consulted before ord
     ("#[eq(key = $KEQ)] #[ord(key = $KNE)]", "key", True),
     ("#[eq(by = $BYEQ)] #[ord(key = $KNE)]", "by", None),
+    # keys that do not mention the field at all: the key still stands for the field
+    ("#[eq(key = 0.5f32)]", "key", False),
+    ("#[ord(key = ::dxrt::PE(1))]", "key", False),
+    ("#[eq(key = 7u8)]", "key", True),
+    ("#[ord(key = (1u8, \"k\"))]", "key", True),
+    ("#[eq(key = ::dxrt::PE(1))] #[ord(key = $KEQ)]", "key", False),
 ]
 
 
@@ -185,6 +191,38 @@ def generic_family():
     return out
 
 
+def lifetime_family():
+    """Items with lifetime parameters whose compared field types mention only the lifetime: nothing about the item is generic
+    over a type, so Eq must be refused exactly when the referent is not Eq."""
+    non_eq = ["&'a f32", "&'a f64", "::core::option::Option<&'a f32>", "(&'a u8, &'a f64)", "&'a [f64]", "&'a mut f32",
+              "&'a ::dxrt::PE", "::std::boxed::Box<&'a ::dxrt::P>"]
+    is_eq = ["&'a u8", "&'a str", "::core::option::Option<&'a ::dxrt::V>", "&'a mut u8", "&'a [u8]", "::core::marker::PhantomData<&'a f32>"]
+    out = []
+    k = 0
+    for tys, ok in ((non_eq, False), (is_eq, True)):
+        for t in tys:
+            for shape in ("tuple", "named", "enum", "two"):
+                k += 1
+                head = "#[::derive_ex::derive_ex(Eq, PartialEq)]\n" if k % 2 else "#[derive(::derive_ex::Ex)]\n#[derive_ex(PartialEq, Eq)]\n"
+                if shape == "tuple":
+                    item = f"pub struct Ty<'a>({t});"
+                elif shape == "named":
+                    item = f"pub struct Ty<'a> {{ n: u8, w: {t} }}"
+                elif shape == "enum":
+                    item = f"pub enum Ty<'a> {{ A, B({t}), C {{ s: &'a str }} }}"
+                else:
+                    item = f"pub struct Ty<'a, 'b: 'a>(&'b u8, {t});"
+                args = "'static, 'static" if shape == "two" else "'static"
+                out.append((head + item, ok, [(args, True)] if ok else []))
+    # the non-Eq field exempted: accepted again
+    out.append(("#[::derive_ex::derive_ex(Eq, PartialEq)] pub struct Ty<'a>(#[eq(ignore)] &'a f32, &'a str);", True, [("'static", True)]))
+    out.append(("#[::derive_ex::derive_ex(Eq, PartialEq)] pub struct Ty<'a>(#[eq(key = $.to_bits())] &'a f32, &'a str);", True, [("'static", True)]))
+    out.append(("#[::derive_ex::derive_ex(Eq, PartialEq)] pub struct Ty<'a, T>(&'a T, &'a f64);", False, []))
+    out.append(("#[::derive_ex::derive_ex(Eq, PartialEq)] pub struct Ty<'a, T>(&'a T, ::core::option::Option<&'a u8>);", True,
+                [("'static, ::dxrt::V", True), ("'static, ::dxrt::PE", False)]))
+    return out
+
+
 def gen_spec(rng):
     kind = rng.choice(["struct", "enum"])
     nv = 1 if kind == "struct" else rng.randint(1, 3)
@@ -277,7 +315,9 @@ def run(rep, tier, rng):
     gcases = []
     fam = generic_family()
     rep.count("generic_bound_family", len(fam))
-    for j, (code, ok, probes) in enumerate(GENERIC + fam):
+    lif = lifetime_family()
+    rep.count("lifetime_only_field_family", len(lif))
+    for j, (code, ok, probes) in enumerate(GENERIC + fam + lif):
         body = "\n".join(f'::dxrt::ev!("probe", "i" => {pi}, "eq" => ::dxrt::probe_impl!(Ty<{args}>: ::core::cmp::Eq));' for pi, (args, _) in enumerate(probes))
         gcases.append(C.Case(f"g{j}", code + "\npub fn run() {\n" + body + "\n}", {"ok": ok, "probes": probes}))
     _, n3 = C.run_cases([c for c in gcases if c.meta["ok"]], "c17g", header=HEADER, batch_size=40)
@@ -324,7 +364,8 @@ def run(rep, tier, rng):
                 "controls compile the user-written pieces without derive_ex. Tuple field types (V, PE) / (PE, V) put one key text "
                 "(`$.0`) on an Eq and on a non-Eq component. Generic cases add bound()/bound(T) variants, a family with explicit "
                 "bound(B[, ..]) at every level (type per-trait / shared / #[eq] / #[ord], variant, field) for B weaker than Eq "
-                "(refused unless `..`) and B implying Eq, and probe_impl! bits for Eq/non-Eq instantiations. distinct_nontrivial = distinct sets of interesting fields.")
+                "(refused unless `..`) and B implying Eq, a family of items with lifetime parameters whose field types mention only the "
+                "lifetime (&'a f32 .. refused, &'a u8 .. accepted), keys that do not mention `$`, and probe_impl! bits for Eq/non-Eq instantiations. distinct_nontrivial = distinct sets of interesting fields.")
 
 
 def replay(rep, path):
